@@ -1,7 +1,7 @@
 """C04 -- well-formed changelogs round-trip byte-for-byte through Changelog."""
 import ast
 
-from .. import rx, strlang
+from .. import rx, strlang, normalize
 from ..core import AnalysisError, norm, walk_no_nested
 from ..strlang import Obj, ListOf, Slot, Lit, Cat, Star, BoolUnknown
 from .changelogmodel import Model
@@ -11,7 +11,7 @@ META = {
     'technique': 'writer template of ChangeBlock._format extracted by abstract interpretation and cut into lines; marked-language capture '
                  'agreement of the header line with topline, of each key=value item with keyvalue / value_re, of the trailer with endline; '
                  'abstract transition system of parse_changelog (state × line language) used to show that every line class of a well-formed '
-                 'block takes a warning-free branch that stores the line where _format reads it back; storage/emit order rules for every content-dependent layout of the block writer; line-primitive rule (a text is cut into lines at newlines only)',
+                 'block takes a warning-free branch that stores the line where _format reads it back; storage/emit order rules for every content-dependent layout of the block writer; line-primitive rule (a text is cut into lines at newlines only); line-primitive rule extended: the text that is cut into lines is not rewritten on its way to the cut',
     'level_text': 'Static decision for all texts of the deb-changelog(5) grammar as stated in the property: every header/trailer the writer '
                   'can emit is matched with groups on the written slots (so parsed attributes equal what was written and re-format is '
                   'identical), change/blank lines are routed warning-free to the change list, header/trailer lines to their branches, EOF '
@@ -43,8 +43,15 @@ def extract_block_template(src, rep, all_terms=False):
     shape = ('rec', {'package': ('opt', S), '_raw_version': ('opt', S), 'distributions': ('opt', S), 'urgency': ('opt', S),
                      'urgency_comment': S, 'other_pairs': ('dict', S, S), 'changes()': ('list', S), '_no_trailer': ('bool',),
                      'author': ('opt', S), 'date': ('opt', S), '_trailer_separator': S, '_trailing': ('list', S)})
+    # boolean flags of the block (set to True / False by the constructor, switched by the parser): free in the template, one world each
+    init_ = f.module.funcs.get('ChangeBlock.__init__')
+    for st_ in (ast.walk(init_.node) if init_ is not None else ()):
+        if isinstance(st_, ast.Assign) and len(st_.targets) == 1 and isinstance(st_.targets[0], ast.Attribute) and norm(st_.targets[0].value) == 'self' \
+                and isinstance(st_.value, ast.Constant) and isinstance(st_.value.value, bool) and st_.targets[0].attr not in shape[1]:
+            shape[1][st_.targets[0].attr] = ('bool',)
     params = f.params()
-    body = f.node.body
+    # quantifiers over a local literal table (`all(item[0] is None for item in rows)`) are the conjunction over its rows
+    body = normalize.fold_literal_subscripts(normalize.expand_quantifiers(f.node, table_nodes=normalize.local_table_nodes(f.node))).body
     acc = src.func(M + ':ChangeBlock.changes')
     rets = [r_ for r_ in ast.walk(acc.node) if isinstance(r_, ast.Return)]
     if len(rets) == 1 and rets[0].value is not None and norm(rets[0].value) == 'self._changes':
